@@ -844,10 +844,28 @@ class Evaluator(object):
                 if isinstance(obj, Obj) and all(isinstance(
                         t, (ast.Name, ast.Attribute)) for t in tnodes):
                     # class names are taken from the syntax (they may be
-                    # shadowed by stand-in constructors)
+                    # shadowed by stand-in constructors) - unless a name
+                    # is a variable holding a tuple of classes
                     cls = obj.__dict__['_cls']
-                    names = [t.id if isinstance(t, ast.Name) else t.attr
-                             for t in tnodes]
+                    names = []
+                    for t in tnodes:
+                        held = None
+                        if isinstance(t, ast.Name):
+                            if t.id in env:
+                                held = env[t.id]
+                            else:
+                                try:
+                                    held = Folder(
+                                        self.module, self.clsname).fold(t)
+                                except Unfoldable:
+                                    held = None
+                        if isinstance(held, (tuple, list)) and held and \
+                                all(isinstance(x, Sym) for x in held):
+                            names.extend(x.name.split('.')[-1]
+                                         for x in held)
+                        else:
+                            names.append(t.id if isinstance(t, ast.Name)
+                                         else t.attr)
                     return any(self.is_subclass(cls, nm) for nm in names)
                 types = self.expr(e.args[1], env)
                 if not isinstance(types, tuple):
@@ -969,6 +987,7 @@ class Evaluator(object):
                 return obj
             if self.inline_module_functions and f.module and \
                     f.module != self.module.name and \
+                    f.module.startswith('calmjs.parse') and \
                     getattr(self.module, 'index', None) is not None:
                 # a function of another module of the package: evaluated
                 # in the context of its own module
